@@ -112,54 +112,74 @@ def gen_plan(run_seed: int, tier: str) -> dict:
         pre.append(s)
         subs.append((s["n"], s["app"]))
 
-    def draw(mine):
-        c = r.random()
-        firm = [o for o in objs if not o[3]]
-        if c < 0.20:
-            app = r.choice(reg_p) if r.random() < 0.9 else r.choice(provs)
-            o = add(app)
-            mine.append((o["n"], o["tpl"], o["app"], o["expired"]))
-            return o
-        if c < 0.34 and (firm or objs):
-            tgt = r.choice(firm) if firm and r.random() < 0.8 else r.choice(objs + mine)
-            serial[0] += 1
-            return {"op": "update", "app": tgt[2], "ref": tgt[0], "tpl": tgt[1], "sid": r.choice([1001, 1002, 2001]), "serial": serial[0]}
-        if c < 0.45 and firm:
-            tgt = r.choice(firm + [o for o in mine if not o[3]])
-            return {"op": "delete", "app": tgt[2], "ref": tgt[0]}
-        if c < 0.63:
-            flt = None
-            if r.random() < 0.3:
-                flt = {"s1": {"attr": "header.stationId", "op": r.choice(["==", "!="]), "val": r.choice([1001, 1002])}}
-            return {"op": "query", "app": r.choice(reg_c) if r.random() < 0.9 else r.choice(conss),
-                    "types": r.choice([[2], [16], [1], [1, 2, 16], [1, 2, 16]]), "filter": flt}
-        if c < 0.72:
-            return {"op": "collect_trash", "dt_ms": r.choice([0, 0, 500])}
-        if c < 0.80:
-            return {"op": "attend"}
-        if c < 0.86:
-            s = sub(r.choice(reg_c) if r.random() < 0.9 else r.choice(conss))
-            subs.append((s["n"], s["app"]))
-            return s
-        if c < 0.90 and subs:
-            s = r.choice(subs)
-            return {"op": "unsubscribe", "app": s[1], "ref": s[0]}
-        if c < 0.95:
-            a = r.choice(provs)
-            return {"op": r.choice(["register_provider", "deregister_provider"]), "app": a}
-        a = r.choice(conss)
-        return {"op": r.choice(["register_consumer", "deregister_consumer"]), "app": a}
+    focus = r.choice(["store", "store", "store", "subs", "subs", "registry", "mix", "mix"])
+    cfg["focus"] = focus
+    WEIGHTS = {
+        "store": {"add": 25, "update": 20, "delete": 15, "query": 20, "collect_trash": 12, "attend": 3, "subscribe": 2, "reg_p": 2, "reg_c": 1},
+        "subs": {"subscribe": 25, "unsubscribe": 20, "attend": 15, "reg_c": 18, "add": 10, "query": 7, "update": 5},
+        "registry": {"reg_p": 35, "reg_c": 30, "add": 15, "query": 15, "subscribe": 5},
+        "mix": {"add": 20, "update": 14, "delete": 11, "query": 18, "collect_trash": 9, "attend": 8, "subscribe": 6, "unsubscribe": 4,
+                "reg_p": 5, "reg_c": 5},
+    }[focus]
+    kinds = sorted(WEIGHTS)
+    weights = [WEIGHTS[k] for k in kinds]
+    if focus == "subs":
+        while len(subs) < 2:
+            s_ = sub(r.choice(reg_c))
+            pre.append(s_)
+            subs.append((s_["n"], s_["app"]))
 
-    nth = r.choice([2, 2, 3, 3, 4])
+    def draw(mine):
+        firm = [o for o in objs if not o[3]]
+        for _ in range(20):
+            k = r.choices(kinds, weights)[0]
+            if k == "add":
+                app = r.choice(reg_p) if r.random() < 0.85 else r.choice(provs)
+                o = add(app)
+                mine.append((o["n"], o["tpl"], o["app"], o["expired"]))
+                return o
+            if k == "update" and (firm or objs):
+                tgt = r.choice(firm) if firm and r.random() < 0.8 else r.choice(objs + mine)
+                serial[0] += 1
+                return {"op": "update", "app": tgt[2], "ref": tgt[0], "tpl": tgt[1], "sid": r.choice([1001, 1002, 2001]), "serial": serial[0]}
+            if k == "delete" and firm:
+                tgt = r.choice(firm + [o for o in mine if not o[3]])
+                return {"op": "delete", "app": tgt[2], "ref": tgt[0]}
+            if k == "query":
+                flt = None
+                if r.random() < 0.3:
+                    flt = {"s1": {"attr": "header.stationId", "op": r.choice(["==", "!="]), "val": r.choice([1001, 1002])}}
+                return {"op": "query", "app": r.choice(reg_c) if r.random() < 0.8 else r.choice(conss),
+                        "types": r.choice([[2], [16], [1], [1, 2, 16], [1, 2, 16]]), "filter": flt}
+            if k == "collect_trash":
+                return {"op": "collect_trash", "dt_ms": r.choice([0, 0, 500])}
+            if k == "attend":
+                return {"op": "attend"}
+            if k == "subscribe":
+                s_ = sub(r.choice(reg_c) if r.random() < 0.85 else r.choice(conss))
+                subs.append((s_["n"], s_["app"]))
+                return s_
+            if k == "unsubscribe" and subs:
+                s_ = r.choice(subs)
+                return {"op": "unsubscribe", "app": s_[1], "ref": s_[0]}
+            if k == "reg_p":
+                return {"op": r.choice(["register_provider", "register_provider", "deregister_provider"]), "app": r.choice(provs)}
+            if k == "reg_c":
+                return {"op": r.choice(["register_consumer", "deregister_consumer"]), "app": r.choice(conss)}
+        return {"op": "attend"}
+
+    nth = r.choice([2, 2, 2, 3, 3, 4])
+    small = r.random() < 0.35
     ops = []
     for th in range(nth):
         mine: list = []
-        for _ in range(r.choice([1, 2, 2, 3, 4])):
+        for _ in range(1 if small else r.choice([1, 2, 2, 3, 4])):
             if len(ops) >= 16:
                 break
             op = dict(draw(mine))
             op["th"] = th
             ops.append(op)
+    cfg["pools"] = {"providers": provs, "consumers": conss}
     sched = S.draw_strategy(r)
     return {"engine": ENGINE, "property": ID, "config": cfg, "pre": pre, "ops": ops, "sched": sched, "sched_seed": r.getrandbits(32)}
 
@@ -458,10 +478,14 @@ class _Run:
             if self.harness_exc is not None:
                 raise self.harness_exc
             if not sc.aborting:
-                for label, op in (("post0", {"op": "attend"}),
-                                  ("post1", {"op": "query", "app": AUDITOR, "types": list(L.ALL_TYPES), "filter": None})):
-                    self.ops.append((label, op))
-                    self.run_op(label, op)
+                post = [{"op": "attend"}, {"op": "query", "app": AUDITOR, "types": list(L.ALL_TYPES), "filter": None}]
+                pools = self.cfg.get("pools", {})
+                # the final registry content is read through the API: a deregistration is acknowledged iff the application was registered
+                post += [{"op": "deregister_provider", "app": a} for a in pools.get("providers", [])]
+                post += [{"op": "deregister_consumer", "app": a} for a in pools.get("consumers", [])]
+                for i, op in enumerate(post):
+                    self.ops.append((f"post{i}", op))
+                    self.run_op(f"post{i}", op)
 
     # ---------------------------------------------------------------- oracle
     def ident(self, record):
@@ -506,7 +530,7 @@ class _Run:
 
         def cluster(ents, extra=()):
             """kinds of the operations racing on the (first of the) given entities"""
-            ents = sorted(ents)[:1]
+            ents = sorted(ents, key=lambda x: ({"obj": 0, "sub": 1, "prov": 2, "cons": 3}[x[0]], x[1]))[:1]
             if not ents:
                 return "none"
             e = ents[0]
